@@ -21,6 +21,7 @@ import (
 	"github.com/ethereum/go-ethereum/crypto"
 	"github.com/ethereum/go-ethereum/eth/protocols/snap"
 	"github.com/ethereum/go-ethereum/ethdb"
+	"github.com/ethereum/go-ethereum/ethdb/memorydb"
 	"github.com/ethereum/go-ethereum/log"
 	"github.com/ethereum/go-ethereum/rlp"
 
@@ -41,6 +42,8 @@ var trace = os.Getenv("VERIF_TRACE") != ""
 //	restart-move  both
 //	drop / join   peer N unregisters / registers
 //	jump          the clock jumps N seconds with requests in flight
+//	crash         the process dies (no graceful save): a new syncer starts on the disk image of that
+//	              instant, minus the last N mutation units (N > 0: power loss, nothing was synced)
 type Op struct {
 	After int    `json:"after"`
 	K     string `json:"k"`
@@ -117,6 +120,7 @@ type runState struct {
 	res    *simcore.Result
 	w      *World
 	kv     *simdisk.SimKV
+	base   *memorydb.Database // image the current kv was started from (after a crash)
 	db     ethdb.Database
 	net    *Net
 	tape   *simcore.TapeReader
@@ -273,6 +277,24 @@ func (rs *runState) doOp(op Op) {
 		rs.res.Fault("restart")
 		if op.K == "restart-move" && rs.movePivot(op.N) {
 			rs.res.Fault("pivot-move")
+		}
+		rs.startSync()
+	case "crash":
+		// the image is taken before the cancel, so nothing the graceful teardown
+		// writes is part of it
+		mem, lost := rs.crashImage(op.N)
+		rs.stopSync()
+		synctest.Wait()
+		rs.base = mem
+		rs.kv = simdisk.FromMem(copyMem(mem), nil)
+		rs.kv.Hook = rs.markerHook
+		rs.db = rawdb.NewDatabase(rs.kv)
+		rs.writeHeaders(0, rs.pivot) // the header chain is the downloader's business, not the syncer's
+		rs.newSyncer()
+		if lost > 0 {
+			rs.res.Fault("power-loss")
+		} else {
+			rs.res.Fault("crash")
 		}
 		rs.startSync()
 	case "drop":
@@ -512,6 +534,49 @@ func (rs *runState) markerHook(op *simdisk.KVOp) {
 			}
 		}
 	}
+}
+
+func copyMem(src *memorydb.Database) *memorydb.Database {
+	dst := memorydb.New()
+	it := src.NewIterator(nil, nil)
+	for it.Next() {
+		dst.Put(common.CopyBytes(it.Key()), common.CopyBytes(it.Value()))
+	}
+	it.Release()
+	return dst
+}
+
+func applyUnit(mem *memorydb.Database, op *simdisk.KVOp) {
+	switch op.Kind {
+	case simdisk.OpPut:
+		mem.Put(op.Key, op.Val)
+	case simdisk.OpDelete:
+		mem.Delete(op.Key)
+	case simdisk.OpDeleteRange:
+		mem.DeleteRange(op.Key, op.Val)
+	case simdisk.OpBatch:
+		for i := range op.Batch {
+			applyUnit(mem, &op.Batch[i])
+		}
+	}
+}
+
+// crashImage is Node B's disk as a crash at this instant leaves it: the image the
+// current disk was started from plus every mutation unit logged since, minus
+// the last `lose` units (power loss; the syncer never syncs, so any suffix may be gone).
+func (rs *runState) crashImage(lose int) (*memorydb.Database, int) {
+	log := rs.kv.Snapshot()
+	if lose > len(log) {
+		lose = len(log)
+	}
+	mem := memorydb.New()
+	if rs.base != nil {
+		mem = copyMem(rs.base)
+	}
+	for i := 0; i < len(log)-lose; i++ {
+		applyUnit(mem, &log[i])
+	}
+	return mem, lose
 }
 
 func (rs *runState) initDisk() {
